@@ -84,3 +84,37 @@ Definition shadow_run (id : string) (order : list (N * string)) : list warning :
 
 (* ---- parseErrorHandler.failOnParseError: `for _, p := range conds { if p(err) { return true } }; return false` ---- *)
 Definition fail_on {P} (holds : P -> bool) (order : list P) : bool := existsb holds order.
+
+(* ---- generic: collect while ranging (append in the loop body), then sort by a key — every append-then-sort site ---- *)
+Definition collect_sort {E A} (key : A -> N) (f : E -> list A) (order : list E) : list A := isort key (flat_map f order).
+
+(* newErrorHandler (ruleguard_checker.go): `for key := range failOnErrorPredicates { supported = append(supported, key) }`,
+   sort.Strings(supported), strings.Join — the map's keys, embedded in N by their string order *)
+Definition supported_values (order : list N) : list N := collect_sort (fun k => k) (fun k => [k]) order.
+
+(* flag registration (analyzer.go init, check.go bindCheckerParams): one flag per (checker, param) under a distinct key into the
+   flag set (itself a map); what a user can observe of it is the sorted listing (flag.PrintDefaults / VisitAll sort by name) *)
+Definition register_flags {V} (order : list (N * V)) : list (N * V) := collect_sort fst (fun kv => [kv]) order.
+
+(* parameter binding (check.go assignCheckerParams, run.go newGocritic): `for pname, p := range info.Params { info.Params[pname].Value = v }`
+   — one write per entry to the cell named by its own key *)
+Definition bind_params {V} (order : list (N * V)) (m : N -> option V) : N -> option V :=
+  fold_left (fun m kv => fun k => if N.eqb k (fst kv) then Some (snd kv) else m k) order m.
+
+(* addChecker (linter/helpers.go): `for pname, param := range info.Params { switch param.Value.(type) { default: panic } }` — whether the
+   registration panics is an OR over the entries (the early exit only short-cuts it) *)
+Definition validate_params {P} (unsupported : P -> bool) (order : list P) : bool := fail_on unsupported order.
+
+(* which site is modelled by which function: keyed like the regenerated inventory (file, function) *)
+Definition modelled_map_sites : list (string * string * string) := [
+  ("importShadow_checker.go", "importShadowChecker.VisitLocalDef", "shadow_run / C02_import_shadow_det");
+  ("ruleguard_checker.go", "newErrorHandler", "supported_values / C02_supported_values_det");
+  ("ruleguard_checker.go", "parseErrorHandler.failOnParseError", "fail_on / C02_fail_on_det");
+  ("analyzer.go", "init", "register_flags / C02_register_flags_det");
+  ("run.go", "newGocritic", "bind_params / C02_bind_params_det");
+  ("check.go", "program.assignCheckerParams", "bind_params / C02_bind_params_det");
+  ("check.go", "program.bindCheckerParams", "register_flags / C02_register_flags_det");
+  ("helpers.go", "addChecker", "validate_params / C02_validate_params_det");
+  ("helpers.go", "getCheckersInfo", "get_checkers_info / C02_get_checkers_info_det")].
+(* the append-then-sort sites: the generic lemma C02_collect_sort_det is instantiated for each *)
+Definition sorted_after_range : list (string * string) := [("ruleguard_checker.go", "newErrorHandler"); ("helpers.go", "getCheckersInfo")].
